@@ -14,6 +14,7 @@ EXPLANATION = ("The real Multiprocessor.filter body is executed with its module-
 ASSUMPTIONS = ["OS processes, pipes and the OS scheduler are not executed symbolically: K1/K2 are sequential kernels of the real code on simulated queue/event/process primitives; the composition under real scheduling is only covered by the real validation runs (multiset of outputs, error propagation, early abandonment, 20 s hang watchdog)",
                "byte-code-level races inside one callback (e.g. the non-atomic self._n_procs -= 1 across callback threads) are not explored",
                "items are pickled ints; the wrapped filter is one of {identity-like, two outputs per item, no output for odd items, raising ValueError/KeyError/CobaException at a chosen item}",
+               "CobaMultiprocessor is only driven with filters that return an iterable per item (its ProcessFilter does `yield from`), as coba's own callers do",
                "keyboard interrupts and > 3 workers outside"]
 FUNCS = ['coba.pipes.multiprocessing:Multiprocessor.filter','coba.pipes.lines:SourceSink.run','coba.pipes.sources:QueueSource.read','coba.pipes.sinks:QueueSink.write',
          'coba.pipes.filters:Slice','coba.pipes.multiprocessing:Foreach','coba.pipes.multiprocessing:Safe','coba.pipes.multiprocessing:Stopper','coba.pipes.multiprocessing:Pickler',
@@ -80,8 +81,11 @@ def capture(mp, items):
 class F:
     """the wrapped filter"""
     def __init__(self, kind, bad=None, exc='ValueError'): self.kind, self.bad, self.exc = kind, bad, exc; self.seen = []
+    LOG = []          # (participant name, item) - class attribute, shared by the copies the simulated children work on
+    WHO = staticmethod(lambda: None)
     def filter(self, item):
         self.seen.append(item)
+        F.LOG.append((F.WHO(), item))
         if self.bad is not None and item == self.bad:
             from coba.exceptions import CobaException
             raise {'ValueError':ValueError,'KeyError':KeyError,'CobaException':CobaException,'EOFError':EOFError,'AssertionError':AssertionError,'BrokenPipeError':BrokenPipeError}[self.exc](f"boom {item}")
@@ -215,6 +219,97 @@ def per_call_state(sym):
     sym.check(len(RecLine.made) == 1, "in the second call an un-poisoned worker was not replaced (stale state from the first call)")
 
 # ---------------------------------------------------------------------------------------------------
+def sched_params(tier):
+    P = []
+    if tier == 'quick':
+        cfgs = [(2,0),(2,1),(1,1),(2,2)]; its = (1,2,3); dl = 1
+    else:
+        cfgs = [(2,0),(2,1),(1,1),(2,2),(3,1),(3,0),(1,2),(3,2)]; its = (0,1,2,3,4); dl = 2
+    for n,m in cfgs:
+        for items in its:
+            P.append(dict(n=n, m=m, items=items, kind='one', bad=None, abandon=None, delays=dl))
+            if items >= 2:
+                P.append(dict(n=n, m=m, items=items, kind='two', bad=None, abandon=None, delays=dl))
+                P.append(dict(n=n, m=m, items=items, kind='one', bad=items-2, abandon=None, delays=dl))
+                P.append(dict(n=n, m=m, items=items, kind='one', bad=None, abandon=1, delays=dl))
+            if items >= 3 and tier != 'quick':
+                P.append(dict(n=n, m=m, items=items, kind='odd_none', bad=None, abandon=None, delays=dl))
+                P.append(dict(n=n, m=m, items=items, kind='two', bad=0, abandon=None, delays=dl))
+                P.append(dict(n=n, m=m, items=items, kind='two', bad=None, abandon=3, delays=dl))
+    if tier != 'quick':
+        P += [dict(n=2, m=1, items=3, kind='one', bad=None, abandon=None, delays=3), dict(n=2, m=0, items=3, kind='one', bad=1, abandon=None, delays=3),
+              dict(n=2, m=2, items=3, kind='two', bad=None, abandon=None, delays=3)]
+    return P
+
+@obligation('C08','schedules', bounds={'quick':"the real Multiprocessor.filter (generator body, both callbacks, real loader and worker lines) on simulated queues/events/process glue under a delay-bounded schedule: deterministic run-to-block round-robin plus 1 delay whose position is a z3 integer over all choice points; (processes,maxtasksperchild) in {(2,0),(2,1),(1,1),(2,2)}, 1..3 items, filter with 1 or 2 outputs, raising at one item, or output abandoned after 1",
+                                       'thorough':"2 delays (3 for three configurations); (processes,maxtasksperchild) in 8 combinations up to 3 processes; 0..4 items; filters with 0/1/2 outputs per item"},
+            functions=FUNCS+['coba.pipes.lines:ThreadLine.run'], classify=_classify, params=sched_params, budget={'quick':120,'thorough':1500},
+            stubs=['spawn_context.Queue/Event -> vf.sim.SimQueue/SimEvent (instant visibility, FIFO, maxsize honoured)', 'MyProcessLine/ProcessLine glue (spawn, result pipe, join-and-callback thread) -> vf.sim.SimProcessLine on a deep copy of the real line', 'ThreadLine.start -> actor running the real ThreadLine.run'])
+def schedules(sym, n, m, items, kind, bad, abandon, delays):
+    from vf import sim
+    import coba.pipes.lines as cpl
+    sched = sim.Sched()
+    log = []
+    SimPL, SimTL = sim.make_lines(sched, cpl.ThreadLine, log)
+    ctx = sim.SimContext(sched)
+    D = [sym.int(f'delay{k}', 0, 80) for k in range(delays)]
+    for a,b in zip(D, D[1:]): sym.assume(a <= b)
+    old = (cpm.spawn_context, cpm.MyProcessLine, cpm.ThreadLine)
+    cpm.spawn_context, cpm.MyProcessLine, cpm.ThreadLine = ctx, SimPL, SimTL
+    F.LOG = []
+    F.WHO = staticmethod(lambda: sched.current().name)
+    f = F(kind, bad, 'ValueError')
+    mp = Multiprocessor(f, n, m)
+    res = {}
+    def consumer():
+        out, err = [], None
+        try:
+            gen = mp.filter(list(range(items)))
+            for k,o in enumerate(gen):
+                out.append(o)
+                if abandon is not None and k+1 >= abandon: break
+            if hasattr(gen, 'close'): gen.close()
+        except Exception as e: err = e
+        res['out'], res['err'] = out, err
+    c = sched.spawn('consumer', consumer)
+    st = dict(used=0, cp=0)
+    def choose(step, enabled, d):
+        if len(enabled) < 2: return d
+        k = 0
+        while st['used'] < delays and bool(D[st['used']] == st['cp']):
+            st['used'] += 1; k += 1
+        st['cp'] += 1
+        return (d + k) % len(enabled)
+    try:
+        r = sched.run(choose, lambda: c.done)
+    finally:
+        sched.kill()
+        cpm.spawn_context, cpm.MyProcessLine, cpm.ThreadLine = old
+        F.WHO = staticmethod(lambda: None)
+    trace = ' '.join(sched.trace[-25:])
+    if r == 'steps':
+        from symx import Inconclusive
+        raise Inconclusive("step budget of the simulation exhausted")
+    sym.check(r != 'deadlock', f"hang: no participant can run while the caller is still waiting (n={n}, m={m}, items={items}); last steps: {trace}")
+    errs = [(a.name, a.error) for a in sched.actors if a.error is not None]
+    sym.check(not errs, f"participant failed: {errs[:1]}")
+    out, err = res['out'], res['err']
+    exp_all = [o for i in range(items) if i != bad for o in f.expected(i)]
+    if bad is not None:
+        sym.check(err is not None and 'boom' in str(err), f"error: the filter raised for item {bad} but the call ended with err={err!r} and outputs {out}")
+        cnt = collections.Counter(out); ce = collections.Counter(exp_all)
+        sym.check(all(cnt[k] <= ce[k] for k in cnt), f"duplicate: outputs {out} contain values not produced (or produced twice)")
+    elif abandon is not None:
+        sym.check(err is None, f"abandon: abandoning the output raised {err!r}")
+        cnt = collections.Counter(out); ce = collections.Counter(exp_all)
+        sym.check(len(out) == min(abandon, len(exp_all)) and all(cnt[k] <= ce[k] for k in cnt), f"abandon: outputs {out}")
+    else:
+        sym.check(err is None, f"error: unexpected {err!r}")
+        sym.check(sorted(out) == sorted(exp_all), f"multiset: outputs {sorted(out)} but the filter produces {sorted(exp_all)} (n={n}, m={m}); last steps: {trace}")
+    if m > 0:
+        per = collections.Counter(w for w,_ in F.LOG)
+        sym.check(all(v <= m for v in per.values()), f"limit: a worker handled {max(per.values(), default=0)} items with maxtasksperchild={m}")
+
 REAL = r'''
 import sys, os, json, threading, time, warnings; warnings.simplefilter('ignore')
 from coba.pipes.multiprocessing import Multiprocessor
@@ -243,12 +338,12 @@ if __name__ == '__main__':
 
 def real_params(tier):
     base = [dict(kind='one', n=2, m=0, items=5), dict(kind='two', n=2, m=1, items=4), dict(kind='one', n=2, m=2, items=5, bad=3), dict(kind='pid', n=2, m=2, items=6),
-            dict(kind='one', n=3, m=1, items=2), dict(kind='one', n=2, m=0, items=6, abandon=2), dict(kind='one', n=2, m=1, items=4, coba=True), dict(kind='one', n=1, m=1, items=3)]
+            dict(kind='one', n=3, m=1, items=2), dict(kind='one', n=2, m=0, items=6, abandon=2), dict(kind='two', n=2, m=1, items=4, coba=True), dict(kind='one', n=1, m=1, items=3), dict(kind='two', n=2, m=0, items=4, coba=True, bad=2)]
     seed = int(os.environ.get('VERIF_SEED','0') or 0)
     return [base[(seed+i) % len(base)] for i in range(3)] if tier == 'quick' else base
 
-@obligation('C08','real_runs', bounds={'quick':"3 real spawn-based runs (picked by VERIF_SEED from 8 configurations: processes 1..3, maxtasksperchild 0..2, fewer items than workers, two outputs per item, raising filter, early abandonment, CobaMultiprocessor): output multiset, error propagation, per-worker item limit, termination within 40 s",
-                                       'thorough':"all 8 configurations"},
+@obligation('C08','real_runs', bounds={'quick':"3 real spawn-based runs (picked by VERIF_SEED from 9 configurations: processes 1..3, maxtasksperchild 0..2, fewer items than workers, two outputs per item, raising filter, early abandonment, CobaMultiprocessor): output multiset, error propagation, per-worker item limit, termination within 40 s",
+                                       'thorough':"all 9 configurations"},
             functions=FUNCS, raw=True, params=real_params, classify=_classify, budget={'quick':150,'thorough':600})
 def real_runs(tier, param, replay_model=None):
     d = tempfile.mkdtemp(prefix='c08_')
